@@ -258,6 +258,12 @@ func (p *VP9Packet) Unmarshal(packet []byte) ([]byte, error) { // nolint:cyclop
 		return nil, errShortPacket
 	}
 
+	// optional fields must not survive from a packet decoded earlier into the same receiver
+	p.PictureID, p.TID, p.U, p.SID, p.D, p.TL0PICIDX = 0, 0, false, 0, false, 0
+	p.PDiff = nil
+	p.NS, p.Y, p.G, p.NG = 0, false, false, 0
+	p.Width, p.Height, p.PGTID, p.PGU, p.PGPDiff = nil, nil, nil, nil, nil
+
 	p.I = packet[0]&0x80 != 0
 	p.P = packet[0]&0x40 != 0
 	p.L = packet[0]&0x20 != 0
